@@ -89,6 +89,7 @@ OpOfPkt(o, p) ==
 ConnOk(o, c) == c \in DOMAIN o.conn /\ o.conn[c].cack = 1
 KOf(o, cr) == IF cr.ska >= 0 THEN cr.ska ELSE o.ka          \* negotiated keep-alive of a connection (seconds)
 
+OpenAttempt(o) == \E a \in DOMAIN o.att : o.att[a].tclose = -1 /\ ~(o.att[a].c # 0 /\ ConnOk(o, o.att[a].c))
 CancelledByCaller(o, id) == o.ops[id].cancelled \/ o.terminal \/ o.ops[id].atTerminal
 
 ---------------------------------------------------------------------------
@@ -521,7 +522,6 @@ AttemptClauses(o, e) ==
 \* ---- when the client turns to a broker of its list (resolve = start of a try)
 \* C10: after a failed try the next broker of the list follows, cyclically; a pause of 0.5..16.5 s
 \* exactly when the list wrapped around.  Judged within one reconnection (previous try failed).
-OpenAttempt(o) == \E a \in DOMAIN o.att : o.att[a].tclose = -1 /\ ~(o.att[a].c # 0 /\ ConnOk(o, o.att[a].c))
 ResolveClauses(o, e) ==
     LET p == o.try
         prevFailed == p.host >= 0 /\ ~p.ok /\ ~o.terminal
@@ -540,7 +540,11 @@ CloseClauses(o, e) ==
 
 \* ---- end of the cooperative suffix: every accepted request is done
 QuiesceClauses(o, e) ==
-       (IF \E id \in OpIds(o) : o.ops[id].kind \in ReqKinds /\ ~CancelledByCaller(o, id) /\ ~o.ops[id].atTerminal
+    \* C11: after a long cooperative period a running client is connected (or connecting): every reconnect trigger was resolved
+       (IF o.running /\ ~o.terminal /\ DOMAIN o.conn # {} /\ (\A c \in DOMAIN o.conn : o.conn[c].closed) /\ ~OpenAttempt(o)
+             /\ \E id \in OpIds(o) : o.ops[id].kind \in ReqKinds /\ o.ops[id].done = 0
+            THEN {"C11_b_ReconnectTriggerNeverResolved"} ELSE {})
+    \cup (IF \E id \in OpIds(o) : o.ops[id].kind \in ReqKinds /\ ~CancelledByCaller(o, id) /\ ~o.ops[id].atTerminal
                                 /\ o.ops[id].done = 0
             THEN {"C02_q_RequestNeverCompleted"} ELSE {})
     \cup (IF ~o.terminal /\ \E c \in DOMAIN o.conn : ~o.conn[c].closed /\ o.conn[c].cack = 1 /\ o.conn[c].bpub # << >>
